@@ -26,6 +26,7 @@ static DEFERRALS: AtomicU64 = AtomicU64::new(0);
 static GLOBAL_DEFER_PERMILLE: AtomicU32 = AtomicU32::new(0);
 
 thread_local! {
+    static LIVE_LOCAL: Cell<isize> = const { Cell::new(0) };
     static DEFER: RefCell<Option<DeferFn>> = const { RefCell::new(None) };
     static RNG: Cell<u64> = const { Cell::new(0x9E37_79B9_7F4A_7C15) };
 }
@@ -44,6 +45,12 @@ pub fn set_global_defer_permille(permille: u32) {
 /// Number of internally spawned tasks that have not completed or been dropped yet.
 pub fn live_tasks() -> usize {
     LIVE.load(Ordering::SeqCst)
+}
+
+/// Internally spawned tasks created minus dropped on the calling thread
+/// (exact on a current-thread runtime, where tasks are created and dropped on one thread).
+pub fn live_tasks_local() -> isize {
+    LIVE_LOCAL.with(|l| l.get())
 }
 
 /// Total number of internally spawned tasks.
@@ -72,6 +79,7 @@ pub struct Deferred<F> {
 impl<F> Deferred<F> {
     fn new(fut: F, site: &'static Location<'static>) -> Self {
         LIVE.fetch_add(1, Ordering::SeqCst);
+        LIVE_LOCAL.with(|l| l.set(l.get() + 1));
         let id = SPAWNED.fetch_add(1, Ordering::SeqCst);
         Self { fut: Box::pin(fut), site, id, polls: 0 }
     }
@@ -80,6 +88,7 @@ impl<F> Deferred<F> {
 impl<F> Drop for Deferred<F> {
     fn drop(&mut self) {
         LIVE.fetch_sub(1, Ordering::SeqCst);
+        let _ = LIVE_LOCAL.try_with(|l| l.set(l.get() - 1));
     }
 }
 
